@@ -264,11 +264,11 @@ func idlGenCase(e *env, i int, g *Rng, small []*gIdl, lays []layouter, layNames 
 func init() {
 	commands["idl"] = func(e *env) error {
 		budget, perTree := 3, 9
-		if e.tier == "thorough" {
-			budget, perTree = 3, 60
-		}
 		small := idlSmallTrees(budget)
 		lays, names := idlPoolLayouts()
+		if e.tier == "thorough" {
+			perTree = len(lays) + 1 // every small tree under every layout of the pool
+		}
 		return e.each(func(i int, g *Rng) error {
 			text, d, tags := idlGenCase(e, i, g, small, lays, names, perTree)
 			fmt.Fprintln(e.out, idlLine(text, d, tags))
